@@ -301,6 +301,11 @@ def decode_cookie(param, kind, cookie_header):
     value = jar.get(param["name"])
     if value is None:
         raise ValueError("cookie absent")
+    if len(value) >= 2 and value[0] == value[-1] == '"':
+        # quoted-string form with octal escapes, as written by cookie libraries for values containing separators
+        from http.cookies import _unquote
+
+        value = _unquote(value)
     if kind in ("primitive", "int"):
         return value
     if kind == "array":
@@ -520,20 +525,15 @@ def wsgi_part(rng, emit, capture, tier):
     from schemathesis.generation import GenerationMode
 
     matrix = [m for m in operations_matrix() if m[1] == "3.0"]
-    for key, version, param, kind in rng.sample(matrix, 4 if tier == "quick" else 30):
+    for key, version, param, kind in rng.sample(matrix, 8 if tier == "quick" else 40):
         doc, template, method = make_doc(version, param, "json", "")
         app = WsgiCapture()
         try:
-            schema = schemathesis.openapi.from_dict(doc)
-            schema.app = app
-            from schemathesis.transport.wsgi import WSGI_TRANSPORT
-
-            schema.transport = WSGI_TRANSPORT
-            schema.base_url = None
-            schema.location = "/openapi.json"
+            schema = schemathesis.openapi.from_dict(doc).configure(app=app, location="/openapi.json")
             operation = schema[template][method.upper()]
         except Exception as exc:
             emit.count("wsgi_setup_failed")
+            emit.distinct("wsgi_setup_error", f"{type(exc).__name__}: {exc}"[:120])
             continue
         seen = []
 
@@ -559,7 +559,7 @@ def wsgi_part(rng, emit, capture, tier):
             env = app.last
             record = {
                 "method": env["method"],
-                "raw_path": (env["raw_uri"] or (env["path"] + ("?" + env["query"] if env["query"] else ""))),
+                "raw_path": (env["raw_uri"] or env["path"]) + ("?" + env["query"] if env["query"] and "?" not in (env["raw_uri"] or "") else ""),
                 "headers": list(env["headers"].items()) + ([("content-type", env["content_type"])] if env["content_type"] else []),
                 "body": env["body"].decode("latin-1"),
             }
@@ -572,7 +572,7 @@ def wsgi_part(rng, emit, capture, tier):
             for k, what in viols:
                 if "unexpected-header" in k:
                     continue
-                emit.viol(k + ":wsgi", what, context)
+                emit.viol(k if k == "C06/matrix-non-exploded-value-lacks-parameter-name" else k + ":wsgi", what, context)
 
 
 def replay(case):
